@@ -1,10 +1,10 @@
 package main
 
 import (
-	"fmt"
-	"net/http"
 	"bytes"
 	"crypto/x509"
+	"fmt"
+	"net/http"
 	"sync"
 	"time"
 
